@@ -410,6 +410,28 @@ def _straight_line_return(fn: ast.AST) -> Optional[ast.Return]:
     return body[-1]
 
 
+def _branch_returns(fn: ast.AST) -> List[ast.Return]:
+    """the returns of a helper whose body is only `if` chains, asserts, docstrings and `return <expr>` statements"""
+    out: List[ast.Return] = []
+
+    def ok_block(stmts) -> bool:
+        for st in stmts:
+            if isinstance(st, ast.Return):
+                if st.value is None:
+                    return False
+                out.append(st)
+            elif isinstance(st, ast.If):
+                if not ok_block(st.body) or not ok_block(st.orelse):
+                    return False
+            elif isinstance(st, (ast.Assert, ast.Pass)) or (isinstance(st, ast.Expr) and isinstance(st.value, ast.Constant)):
+                continue
+            else:
+                return False
+        return True
+
+    return out if ok_block(list(getattr(fn, "body", []))) and 1 < len(out) <= 4 else []
+
+
 def _expand_expr(fi: FuncInfo, anchor: ast.AST, expr: ast.AST, depth: int, prog: Optional[Program], placeholders: Dict[str, str]) -> ast.AST:
     """`expr`, as evaluated just before statement `anchor` of `fi`, with plain local names replaced by their
     straight-line reaching definitions; with a program at hand, a call of a helper extracted later is replaced by the
@@ -468,6 +490,9 @@ def _expand_expr(fi: FuncInfo, anchor: ast.AST, expr: ast.AST, depth: int, prog:
                     tab = prog.resolve_table2(fi.module, n.id)
                     if tab is not None and isinstance(tab[0], (ast.Tuple, ast.Set)) and all(isinstance(x, ast.Constant) for x in tab[0].elts):
                         return _copy.deepcopy(tab[0])
+                    okc_, val_ = prog.resolve_constant(fi.module, n.id)
+                    if okc_:
+                        return ast.Constant(value=val_)  # a named text / integer constant of the package: its value
             return n
 
         def visit_Call(self, c: ast.Call) -> ast.AST:
@@ -476,6 +501,17 @@ def _expand_expr(fi: FuncInfo, anchor: ast.AST, expr: ast.AST, depth: int, prog:
             if g is None or self.left <= 0:
                 return c
             ret = _straight_line_return(g.node)
+            if ret is None:
+                # a helper that is a chain of `if ...: return A` ... `return B`: one reading per return (the caller of
+                # this expansion tries them all; each has to be a reviewed form)
+                rets = _branch_returns(g.node) if not placeholders.get("__single__") else []
+                if rets:
+                    trace = placeholders.setdefault("__trace__", [])  # type: ignore[arg-type]
+                    prefix = placeholders.get("__prefix__", [])  # type: ignore[assignment]
+                    k_ = len(trace)
+                    pick = prefix[k_] if k_ < len(prefix) else 0
+                    trace.append(len(rets))  # type: ignore[union-attr]
+                    ret = rets[min(pick, len(rets) - 1)]
             params = list(g.params)
             if g.kind in ("method", "classmethod") and isinstance(c.func, ast.Attribute):
                 params = params[1:]
@@ -516,14 +552,27 @@ def _expand_expr(fi: FuncInfo, anchor: ast.AST, expr: ast.AST, depth: int, prog:
                     i = names.index(n.attr)
                     if i < len(n.value.args):
                         return n.value.args[i]
-            if isinstance(n.value, ast.Name) and n.value.id.startswith("_H") and n.value.id in placeholders.values():
+            if isinstance(n.value, ast.Name) and n.value.id.startswith("_H") and n.value.id in [v_ for k_, v_ in placeholders.items() if not k_.startswith("__")]:
                 ph = placeholders.setdefault(norm(n), "_H%d" % (len(placeholders) + 1))
                 return ast.Name(id=ph, ctx=ast.Load())
             return n
 
         def visit_Subscript(self, n: ast.Subscript) -> ast.AST:
             self.generic_visit(n)
-            if isinstance(n.value, ast.Name) and n.value.id in placeholders.values() and isinstance(n.slice, ast.Constant):
+            if isinstance(n.slice, ast.Constant) and isinstance(n.slice.value, int) and not isinstance(n.slice.value, bool):
+                i_ = n.slice.value
+                if isinstance(n.value, ast.Tuple) and 0 <= i_ < len(n.value.elts):
+                    return n.value.elts[i_]  # item of a tuple display
+                if prog is not None and isinstance(n.value, ast.Call) and isinstance(n.value.func, ast.Name) and n.value.func.id in prog.classes and not any(isinstance(a_, ast.Starred) for a_ in n.value.args):
+                    ci = prog.classes[n.value.func.id]
+                    names = [f_ for f_, _d in ci.fields]
+                    if 0 <= i_ < len(names) and prog.resolve_method(ci.name, "__init__") is None:
+                        for k in n.value.keywords:
+                            if k.arg == names[i_]:
+                                return k.value
+                        if i_ < len(n.value.args):
+                            return n.value.args[i_]  # item of a record built on the spot
+            if isinstance(n.value, ast.Name) and n.value.id in [v_ for k_, v_ in placeholders.items() if not k_.startswith("__")] and isinstance(n.slice, ast.Constant):
                 ph = placeholders.setdefault(norm(n), "_H%d" % (len(placeholders) + 1))
                 return ast.Name(id=ph, ctx=ast.Load())
             return n
@@ -538,7 +587,7 @@ def _finish_expanded(fi: FuncInfo, tree: ast.AST, placeholders: Dict[str, str]) 
 
     stored = {n.id for n in ast.walk(fi.node) if isinstance(n, ast.Name) and isinstance(n.ctx, (ast.Store, ast.Del))}
     text = norm(tree)
-    ph = set(placeholders.values())
+    ph = {v_ for k_, v_ in placeholders.items() if not k_.startswith("__")}
     locals_left = {n.id for n in ast.walk(tree) if isinstance(n, ast.Name) and ((n.id in stored and n.id not in fi.params and not hasattr(_bi, n.id)) or n.id in ph)}
     order: Dict[str, str] = {}
     for name in sorted(locals_left, key=lambda nm: (text.find(nm), nm)):
@@ -569,9 +618,37 @@ def expanded_test(fi: FuncInfo, node: ast.Assert, depth: int = 6, prog: Optional
     renaming a local or introducing an intermediate name does not change the identity of a reviewed assert."""
     if _block_chain(fi.node, node) is None:
         return norm(node.test)
-    placeholders: Dict[str, str] = {}
+    placeholders: Dict[str, str] = {"__single__": "1"}  # a helper with several returns is read as one unknown value
     tree = _expand_expr(fi, node, node.test, depth, prog, placeholders)
+    placeholders.pop("__single__", None)
     return _finish_expanded(fi, tree, placeholders)
+
+
+def expanded_alternatives(fi: FuncInfo, node: ast.Assert, prog: Program, depth: int = 6) -> List[str]:
+    """The asserted condition under every reading of the multi-return helpers it goes through (at most 16 readings);
+    a reading that is trivially true (`isinstance('+', str)`) is left out."""
+    if _block_chain(fi.node, node) is None:
+        return [norm(node.test)]
+    out: List[str] = []
+    stack: List[List[int]] = [[]]
+    seen = 0
+    while stack and seen < 16:
+        prefix = stack.pop()
+        seen += 1
+        placeholders: Dict[str, str] = {"__prefix__": prefix, "__trace__": []}  # type: ignore[dict-item]
+        tree = _expand_expr(fi, node, node.test, depth, prog, placeholders)
+        trace = placeholders.pop("__trace__")  # type: ignore[assignment]
+        placeholders.pop("__prefix__", None)
+        for i in range(len(prefix), len(trace)):
+            for alt in range(1, trace[i]):  # type: ignore[index]
+                stack.append(list(prefix) + [0] * (i - len(prefix)) + [alt])
+        t = tree
+        trivial = isinstance(t, ast.Call) and isinstance(t.func, ast.Name) and t.func.id == "isinstance" and len(t.args) == 2 and isinstance(t.args[0], ast.Constant) and isinstance(t.args[0].value, str) and norm(t.args[1]) == "str"
+        if not trivial:
+            text = _finish_expanded(fi, tree, placeholders)
+            if text not in out:
+                out.append(text)
+    return out
 
 
 def expanded_at_call_sites(prog: Program, fi: FuncInfo, node: ast.Assert, depth: int = 6, level: int = 0) -> Optional[List[Tuple[str, str]]]:
@@ -584,7 +661,7 @@ def expanded_at_call_sites(prog: Program, fi: FuncInfo, node: ast.Assert, depth:
 
     if level > 2:
         return None
-    placeholders: Dict[str, str] = {}
+    placeholders: Dict[str, str] = {"__single__": "1"}
     inner = _expand_expr(fi, node, node.test, depth, prog, placeholders)
     out: List[Tuple[str, str]] = []
     for g in prog.all_functions():
@@ -601,6 +678,11 @@ def expanded_at_call_sites(prog: Program, fi: FuncInfo, node: ast.Assert, depth:
             elif isinstance(f, ast.Attribute) and isinstance(f.value, ast.Name) and g.cls is not None and fi.cls is not None and (f.value.id in (g.params[:1] or []) or f.value.id == fi.cls.name):
                 tgt = prog.resolve_method(g.cls.name, f.attr)
                 skip = 1 if fi.kind in ("method", "classmethod") else 0
+            elif isinstance(f, ast.Attribute) and isinstance(f.value, ast.Name):
+                # through a module object:  helpers.f(...)
+                m_ = prog.resolve_name(g.module, f.value.id)
+                if m_ is not None and m_.__class__.__name__ == "ModInfo":
+                    tgt = prog.resolve_dotted(m_.name + "." + f.attr)
             if tgt is not fi:
                 continue
             if any(isinstance(a_, ast.Starred) for a_ in c.args) or any(k.arg is None for k in c.keywords):
@@ -742,11 +824,28 @@ def rule_asserts(ctx: Ctx, rule: str = "assert-on-input") -> None:
                             break
             if ent is None:
                 # through helpers extracted later: the same condition with the helper calls read as expressions
-                exp2 = expanded_test(fi, node, prog=prog)
-                for k2, e2 in table.items():
-                    if k2.startswith(fi.key + " :: ") and (e2.get("expanded") == exp2 or exp2 in e2.get("expanded_forms", [])):
-                        ent = e2
-                        break
+                alts = expanded_alternatives(fi, node, prog)
+                hits2 = []
+                for exp2 in alts:
+                    hit2 = None
+                    for k2, e2 in table.items():
+                        if k2.startswith(fi.key + " :: ") and (e2.get("expanded") == exp2 or exp2 in e2.get("expanded_forms", [])):
+                            hit2 = e2
+                            break
+                    hits2.append(hit2)
+                if alts and all(h_ is not None for h_ in hits2):
+                    ent = hits2[0]
+                elif alts:
+                    # or the reviewed form speaks of "a value computed some other way" where the helper is called
+                    exp3 = expanded_test(fi, node, prog=prog)
+                    for k2, e2 in table.items():
+                        if k2.startswith(fi.key + " :: ") and (e2.get("expanded") == exp3 or exp3 in e2.get("expanded_forms", [])):
+                            ent = e2
+                            break
+                elif not alts:
+                    # every reading is trivially true
+                    ctx.ok(rule, fi.key, "assert %s (trivially true under every reading of the helpers it goes through)" % norm(node.test), nontrivial=False)
+                    continue
             if ent is None:
                 from .pathsim import is_new_helper as _inh
 
@@ -809,6 +908,8 @@ def reader_dispatch(prog: Program, tag: str):
             return const(False)  # "the keys that are missing": none
         if v[0] == "call" and (v[1] == "isinstance" or str(v[1]).endswith("isfile")):
             return const(True)
+        if v[0] == "call" and v[1] == "next" and len(v[2]) == 2 and isinstance(v[2][0], tuple) and v[2][0] and (v[2][0] == const(False) or assume(v[2][0]) == const(False)):
+            return v[2][1]  # next(<the keys that are missing>, default): there is none, so the default
         return None
 
     out = []
@@ -876,6 +977,12 @@ def _missing_keys_test(t) -> List[str]:
     `k not in X`, or a disjunction of such tests (what any(...) unrolls to)."""
     from .pathsim import is_const
 
+    if isinstance(t, tuple) and t and t[0] == "cmp" and t[1] == "IsNot" and is_const(t[3]) and t[3][1] is None:
+        # next((k for k in KEYS if k not in X), None) is not None : "some key is missing"
+        l = t[2]
+        if isinstance(l, tuple) and l and l[0] == "call" and l[1] == "next" and len(l[2]) == 2 and is_const(l[2][1]) and l[2][1][1] is None:
+            return _missing_keys_test(l[2][0])
+        return []
     if isinstance(t, tuple) and t and t[0] in ("listcomp", "genexp", "setcomp") and len(t[2]) == 1:
         it, conds = t[2][0]
         if isinstance(it, tuple) and it and it[0] == "tuple" and all(is_const(x) and isinstance(x[1], str) for x in it[1]):
@@ -936,7 +1043,11 @@ def written_tags(prog: Program) -> Dict[str, str]:
         for it in written_entries(prog):
             t, d = it.get("type"), it.get("data")
             if t is not None and is_const(t) and isinstance(t[1], str) and isinstance(d, tuple) and d and d[0] == "mcall":
-                sem[t[1]] = d[1]
+                if t[1] in sem and sem[t[1]] != d[1]:
+                    # one tag for two representations: whatever the reader does with it is wrong for one of them
+                    sem[t[1]] = "|".join(sorted(set(sem[t[1]].split("|")) | {d[1]}))
+                else:
+                    sem[t[1]] = d[1]
         if sem:
             return sem
     except AnalysisError:
@@ -2217,7 +2328,9 @@ def rule_array_inplace_cast(ctx: Ctx, rule: str = "array-inplace-cast") -> None:
                     ctx.violation(rule, fi.key, construct, "%s is built by %s, whose elements are all the int literal for some inputs; the in-place operation with a float then raises numpy's casting TypeError instead of the documented error" % (node.target.id, norm(arr[0])[:70]), where="%s:%d" % (fi.module.relpath, node.lineno))
                 else:
                     ctx.ok(rule, fi.key, construct)
-    ctx.floor("in-place operations on possibly-integer arrays", n, 1)
+    # no floor: a tree without any in-place operation on such an array has nothing to get wrong (the rule's positive
+    # control is a registered breaking variant, not an instance count)
+    ctx.ok(rule, "-", "in-place operations on possibly-integer arrays inspected: %d" % n, nontrivial=False)
 
 
 # ------------------------------------------------------------------ every read of a name is bound (all properties)
